@@ -36,13 +36,19 @@ func refIGEEncrypt(key, iv, p []byte) []byte {
 func H_C05_ige(blocks int) {
 	key := verifrt.Bytes(32)
 	iv := verifrt.Bytes(32)
-	p := verifrt.Bytes(16 * blocks)
+	pw := verifrt.Bytes(16*blocks + 16) // input and output are fronts of larger caller buffers
+	p := pw[:16*blocks]
+	pw0 := append([]byte{}, pw...)
 	p0 := append([]byte{}, p...)
 	k0 := append([]byte{}, key...)
 	iv0 := append([]byte{}, iv...)
-	out := make([]byte, len(p))
+	ow := verifrt.Bytes(16*blocks + 16)
+	ow0 := append([]byte{}, ow...)
+	out := ow[:len(p)]
 	var err error
 	pn := verifrt.Catch(func() { err = doAES256IGEencrypt(p, out, key, iv) })
+	verifrt.Assert(verifrt.SameBytes(pw, pw0), "enc-callers-input-buffer-untouched")
+	verifrt.Assert(verifrt.SameBytes(ow[len(p):], ow0[len(p):]), "enc-writes-only-the-output-range")
 	verifrt.Assert(!pn, "enc-no-panic")
 	if pn {
 		return
@@ -111,12 +117,19 @@ func refKeyIV(msgKey, authKey []byte, x int) (key, iv []byte) {
 // H_C05_encrypt: Encrypt(msg, key) = IGE(msg ‖ 0^pad) under the send-direction key schedule.
 func H_C05_encrypt(minlen, maxlen int) {
 	n := minlen + verifrt.Len(maxlen-minlen)
-	msg := verifrt.Bytes(n)
+	// the message is the front of a larger buffer (two messages packed back to back): the spare capacity behind
+	// it is the caller's too
+	whole := verifrt.Bytes(n + 16)
+	msg := whole[:n]
 	key := verifrt.Bytes(256)
 	m0 := append([]byte{}, msg...)
+	w0 := append([]byte{}, whole...)
+	k0 := append([]byte{}, key...)
 	var out []byte
 	var err error
 	pn := verifrt.Catch(func() { out, err = Encrypt(msg, key) })
+	verifrt.Assert(verifrt.SameBytes(whole, w0), "encrypt-callers-buffer-untouched")
+	verifrt.Assert(verifrt.SameBytes(key, k0), "encrypt-key-untouched")
 	verifrt.Assert(!pn, "encrypt-no-panic")
 	if pn {
 		return
@@ -168,7 +181,9 @@ func H_C05_tempkeys() {
 // payload length lo..hi; the nonces have no leading zero bytes here (H_C05_tempkeys covers those).
 func H_C05_tempwrap_self(lo, hi int) {
 	n := lo + verifrt.Len(hi-lo)
-	msg := verifrt.Bytes(n)
+	mw := verifrt.Bytes(n + 16)
+	mw0 := append([]byte{}, mw...)
+	msg := mw[:n]
 	nn := verifrt.Bytes(32)
 	sn := verifrt.Bytes(16)
 	verifrt.Assume(nn[0] != 0)
@@ -177,13 +192,16 @@ func H_C05_tempwrap_self(lo, hi int) {
 	verifrt.AssumeCollisionFree()
 	var ct, back []byte
 	pn := verifrt.Catch(func() { ct = EncryptMessageWithTempKeys(msg, a, b) })
+	verifrt.Assert(verifrt.SameBytes(mw, mw0), "tempwrap-seal-callers-buffer-untouched")
 	verifrt.Assert(!pn, "tempwrap-seal-no-panic")
 	if pn {
 		return
 	}
 	verifrt.Assert(len(ct)%16 == 0 && len(ct) >= 20+n, "tempwrap-sealed-length")
 	verifrt.Assert(len(ct)-20-n < 16, "tempwrap-padding-is-0-to-15-bytes")
+	ct0 := append([]byte{}, ct...)
 	pn = verifrt.Catch(func() { back = DecryptMessageWithTempKeys(ct, a, b) })
+	verifrt.Assert(verifrt.SameBytes(ct, ct0), "tempwrap-open-input-untouched")
 	verifrt.Assert(!pn, "tempwrap-open-own-no-panic")
 	if pn {
 		return
